@@ -636,7 +636,16 @@ class Grow:
                      "where make_accessible returns without growing, offset + end must already be <= size")
         if not self.early:
             self.obligations.append(("EARLY", "early|exists", node, True, "no early return"))
-        grown = [s for s in states]
+        # a path that ends without touching the tape (an `if nothing-needed { } else { grow }` shape) is an early return as well
+        for s_ in states:
+            if not s_.fields and s_.copy is None:
+                self.early.append((s_, node))
+        grown = [s for s in states if s.fields or s.copy is not None]
+        self.obligations = [o for o in self.obligations if not o[1].startswith("early|")]
+        self.require("EARLY", "early|start", node, [(s, O + start) for s, _ in self.early],
+                     "where make_accessible returns without growing, offset + start must already be >= 0")
+        self.require("EARLY", "early|end", node, [(s, S - O - end) for s, _ in self.early],
+                     "where make_accessible returns without growing, offset + end must already be <= size")
         if not grown:
             raise Unanalysable("no path grows the tape")
         for s in grown:
